@@ -268,8 +268,11 @@ impl StringLines {
     }
 
     /// Get the nth line in this string.
-    pub fn get(&self, idx: usize) -> Option<char> {
-        self.0.0.get(idx..).and_then(|s| s.chars().next())
+    ///
+    /// The line terminator (`\n` or `\r\n`) is not part of the returned
+    /// line, as in [`StringLines::list`].
+    pub fn get(&self, idx: usize) -> Option<RotoString> {
+        self.0.0.lines().nth(idx).map(Into::into)
     }
 
     /// Slice this string by lines.
